@@ -198,6 +198,17 @@ def check(c):
         if abs(got - v) > 1e-9 * abs(v):
             out.violations.append(Violation("result|value", "parameter %s matched to %r, generated value %r\n%s" % (k, got, v, ctx)))
             return out
+    # the same law for an instance made by the template itself, after the template has been matched once
+    try:
+        inst = T(**c["values"])
+        res2 = match_template(T, inst)
+    except Exception as ex:
+        out.violations.append(Violation("own-instance-rejected|" + exc_bucket("match", ex) + "|" + _msg_class(ex),
+                                        "match_template(T, T(**values)) raised %s: %s\n%s" % (type(ex).__name__, ex, ctx)))
+        return out
+    if not isinstance(res2, dict) or set(res2) != set(c["values"]) or any(
+            abs(float(res2[k]) - v) > 1e-9 * abs(v) for k, v in c["values"].items()):
+        out.violations.append(Violation("own-instance|result", "match_template(T, T(**values)) returned %r for values %r\n%s" % (res2, c["values"], ctx)))
     return out
 
 
